@@ -122,9 +122,15 @@ def c15_models(tier):
     cs = [cand(G[k], "q", "A", 100 + k, 100 + k) for k in range(n)] + [cand(G[1] + 3600, "x"), cand(G[0] - 60, "x")]
     folds = [FOLD_ALL, (G[1], G[3]), (G[0] + 1, G[n - 2] + 5), (G[2], G[2])]
     eplens = (0, 1, 2, 3, 4) if tier == "quick" else (0, 1, 2, 3, 4, 5, 6)
-    return [env_model("folds", G[:n], cs, [1], 4 if tier == "quick" else n + 1, [0], folds, [(False, -1), (True, -1)],
-                      eplens=eplens, maxcalls=5 if tier == "quick" else 7, reset_anywhere=False,
-                      invariants=C15_INV, properties=["DoneIsAbsorbing"])]
+    ms = [env_model("folds", G[:n], cs, [1], 4 if tier == "quick" else n + 1, [0], folds, [(False, -1), (True, -1)],
+                    eplens=eplens, maxcalls=5 if tier == "quick" else 7, reset_anywhere=False,
+                    invariants=C15_INV, properties=["DoneIsAbsorbing"])]
+    # liveness under weak fairness of Step: an episode of n decisions does end (no state constraint; the call bound exceeds
+    # the longest episode)
+    ms.append(env_model("folds-live", G[:4], cs[:4] + cs[n:], [1], 2, [0], folds[:2], [(False, -1)], eplens=(0, 1, 2),
+                        maxcalls=6, reset_anywhere=False, invariants=["ExactLength"], properties=["EpisodeEnds"],
+                        specification="FairSpec"))
+    return ms
 
 
 def c15(tier, seed):
